@@ -62,6 +62,10 @@
 (*                        boundary                                         *)
 (*   "RawDropsSecret"     the raw-text receiver does not read the secret   *)
 (*                        after a marker                                   *)
+(*   "ZeroBudgetReadsNothing"  the size-limited parsing receiver, when its  *)
+(*                        byte budget is used up exactly at a field         *)
+(*                        boundary, takes the next string as "" without     *)
+(*                        reading it instead of refusing the ad             *)
 (*   "CountNotItems"      with the ServerTime option the sender drops the  *)
 (*                        ad's own ServerTime attribute from the items but *)
 (*                        still counts it                                  *)
@@ -219,6 +223,53 @@ Consume(r, w, s) ==
       used |-> w[1].parts + it.used + tUsed,
       attrs |-> it.attrs]
 
+(* The size-limited parsing receiver (GetClassAdWithMaxSize) with byte budget B. *)
+(* Every string field costs its size (one abstract unit here; the replayer tries  *)
+(* every byte value); B = 0 means unlimited.  Before each string the receiver     *)
+(* looks at what is left of the budget: none left -> it refuses the ad (a clean   *)
+(* error).  The statement leaves open WHICH budgets are refused, but not what a   *)
+(* successful return means: it is the parsing receiver, so it yields exactly the  *)
+(* ad and exactly the consumption of the unlimited one (MaxSizeAllOrNothing).     *)
+Gate(B, spent) ==
+  IF B = 0 \/ B - spent >= 1 THEN "read"
+  ELSE IF "ZeroBudgetReadsNothing" \in Bug /\ B - spent = 0 THEN "empty"   \* "" without reading
+  ELSE "refuse"
+
+RECURSIVE MaxItems(_, _, _, _)
+\* acc = [i, used, attrs, ok, spent]
+MaxItems(w, n, B, acc) ==
+  IF n = 0 \/ ~acc.ok THEN acc
+  ELSE IF acc.i > Len(w) \/ Gate(B, acc.spent) # "read" THEN [acc EXCEPT !.ok = FALSE]
+       \* an item read as "" has no '=': that is a clean error as well
+  ELSE LET i == acc.i
+           f == w[i] IN
+    IF f.k = "marker" /\ i + 1 <= Len(w) THEN
+       IF Gate(B, acc.spent + 1) # "read" THEN [acc EXCEPT !.ok = FALSE]
+       ELSE MaxItems(w, n - 1, B, [acc EXCEPT !.i = i + 2, !.used = @ + f.parts + w[i + 1].parts,
+                                              !.attrs = Append(@, w[i + 1].a), !.spent = @ + 2])
+    ELSE IF f.k = "secret" /\ f.prot /\ ~w[i - 1].prot THEN [acc EXCEPT !.ok = FALSE]
+    ELSE MaxItems(w, n - 1, B, [acc EXCEPT !.i = i + 1, !.used = @ + f.parts,
+                                           !.attrs = IF f.k = "item" THEN Append(@, f.a) ELSE @, !.spent = @ + 1])
+
+\* one type-name read at field index i; returns [ok, used, spent, tn, i]
+TypeRead(w, s, B, a) ==
+  IF ~a.ok THEN a
+  ELSE CASE Gate(B, a.spent) = "refuse" -> [a EXCEPT !.ok = FALSE]
+         [] Gate(B, a.spent) = "empty"  -> a                      \* "" and nothing consumed
+         [] OTHER ->
+              IF a.i <= Len(w)
+                THEN [a EXCEPT !.i = @ + 1, !.used = @ + w[a.i].parts, !.spent = @ + 1, !.tn = @ + 1]
+                ELSE [a EXCEPT !.ok = s # "enc"]                   \* past the end of the message
+
+ConsumeMax(w, s, B) ==
+  LET it == MaxItems(w, w[1].n, B, [i |-> 2, used |-> 0, attrs |-> <<>>, ok |-> TRUE, spent |-> 0])
+      a0 == [ok |-> it.ok, used |-> it.used, spent |-> it.spent, tn |-> 0, i |-> it.i]
+      a2 == TypeRead(w, s, B, TypeRead(w, s, B, a0))
+  IN [ok |-> a2.ok, used |-> w[1].parts + a2.used, attrs |-> it.attrs, tn |-> a2.tn]
+
+NStrings(w) == Cardinality({j \in 1..Len(w) : w[j].k # "count"})
+NTypes(w) == Cardinality({j \in 1..Len(w) : w[j].k = "type"})
+
 -----------------------------------------------------------------------------
 Cfgs == [opts : OptWords, wl : Whitelists, ver : Versions, st : StreamStates]
 Attrs == [cls : AttrClasses, sp : Spellings]
@@ -276,6 +327,14 @@ SameConsumption ==
     /\ p.ok = w.ok /\ w.ok = k.ok
     /\ p.ok => p.used = total /\ w.used = total /\ k.used = total
     /\ p.ok = (~Bit(cfg.opts, BNoTypes) \/ cfg.st # "enc")
+MaxSizeAllOrNothing ==
+  phase = "put" =>
+    LET p == Res("parse") IN
+    \A B \in 0..(NStrings(wire) + 3) :
+      LET x == ConsumeMax(wire, cfg.st, B) IN
+      /\ x.ok => /\ p.ok /\ x.used = p.used /\ x.attrs = p.attrs /\ x.tn = NTypes(wire)
+      \* unlimited, or room for every string and the two type reads: it IS the parsing receiver
+      /\ (B = 0 \/ B >= NStrings(wire) + 2) => x.ok = p.ok
 AttrSetPreserved ==
   phase = "put" =>
     LET p == Res("parse") IN
